@@ -10,7 +10,7 @@ INV_OF = {"C06": {"Informed"}, "C11": set(),
 # events whose mismatch concerns each property
 EVENTS_OF = {"C11": ("tok.init", "tok.info", "h.start", "tok.acq", "end"),   # the next scheduler on the token directory a dead one left
              "C06": ("sched.dep", "h.quiescent", "tok.evt.info"),     # a job that waits for ever with the token free: the submission steps, the quiescent points
-             "C08": ("tok.acq", "tok.create", "tok.file.delete", "tok.watch.reclaim", "tok.evt.cached", "tok.rel", "h.start"),
+             "C08": ("tok.acq", "tok.create", "tok.file.delete", "tok.watch.reclaim", "tok.evt.cached", "tok.rel", "h.start", "tok.watching", "tok.init"),
              "C09": ("sched.dep", "tok.rel", "tok.evt", "tok.init", "tok.dep.changed", "tok.watch", "tok.watching", "tok.file.delete", "h.quiescent", "tok.init.error", "tok.acq.count", "h.start")}
 
 
@@ -155,14 +155,25 @@ def run(rep, prop, tier, replay_name=None, only=None):
                 rep.violation(f"{prop}/model/{res.violation[1]}", f"TLC: {res.violation} in {cfg}", {"tlc_tail": res.out[-2500:]})
             elif res.error:
                 rep.machinery_failure(f"TLC failed on {cfg}: {res.error}")
-    names = [replay_name] if replay_name else list(only) if only else [n for n in e2.SCENARIOS if not n.startswith("full") and (prop != "C06" or n in ("contention", "mixed", "enlarged", "enlarged_while_held"))]
+    names = [] if replay_name and replay_name.startswith("random:") else [replay_name] if replay_name else list(only) if only else [n for n in e2.SCENARIOS if not n.startswith("full") and (prop != "C06" or n in ("contention", "mixed", "enlarged", "enlarged_while_held", "missing_at_release", "release_raced"))]
     reps = 1 if replay_name else (2 if tier == "quick" else 12)
     jobs, results = token.run_scenarios(names, reps)
     if not replay_name and not only:
         # real experiments (real schedulers, real jobs) sharing the token of the workspace connector
         fj, fr = token.run_scenarios(["full_one_unit", "full_mixed"], 1 if tier == "quick" else 6, workers=4)
         jobs, results = jobs + fj, results + fr
+    if not replay_name and not only and prop in ("C08", "C09"):
+        # random walks of two schedulers and three jobs over the life of a token, commands issued in pairs at the same time
+        from .common import seed as _seed
+
+        n = 8 if tier == "quick" else 240
+        base = 100000 * _seed()
+        rj, rr = token.run_random(range(base, base + n))
+        jobs, results = jobs + rj, results + rr
+    if replay_name and replay_name.startswith("random:"):
+        jobs, results = token.run_random([int(replay_name.split(":")[1])])
     verdicts, stats = token.validate(results)
+    rep.cov["reordered_announced_deletions"] = stats.get("reordered", 0)
     for e in stats["errors"][:2]:
         rep.machinery_failure("TLC failed on a token trace batch: " + e[-400:])
     rep.cov["states"] += stats["distinct"]
